@@ -271,6 +271,32 @@ pub fn run(ctx: &Ctx, replay: Option<&J>) -> i32 {
             }
         }
     }
+    // ---- precision family: arithmetic on operands whose results are inexact, so that a different
+    // (but mathematically equivalent) formula per shape shows as a bit difference
+    {
+        let prec: Vec<RV> = [0.1, 0.3, 1.1, 3.0, 10.0, -4.0, 1e160, 1e-160, 7.0, 64.0, 65.0, -0.7, 2.5]
+            .iter()
+            .map(|x| RV::Num(*x))
+            .collect();
+        for (oi, (op, bop)) in OPS.iter().enumerate() {
+            if !matches!(bop, BinaryOp::Add | BinaryOp::Subtract | BinaryOp::Multiply | BinaryOp::Divide | BinaryOp::Modulo | BinaryOp::Power) {
+                continue;
+            }
+            for a in &prec {
+                for b in &prec {
+                    let la = vec![a.clone()];
+                    let lb = vec![b.clone()];
+                    let lab = vec![a.clone(), b.clone()];
+                    let lba = vec![b.clone(), a.clone()];
+                    cases.push(Case { src: format!("{} {} {}", RV::List(la.clone()).src(), op, b.src()), kind: "list-scalar", expected: mk_expected(oi, &la, &lb) });
+                    cases.push(Case { src: format!("{} {} {}", a.src(), op, RV::List(lb.clone()).src()), kind: "scalar-list", expected: mk_expected(oi, &la, &lb) });
+                    cases.push(Case { src: format!("{} {} {}", RV::List(lab.clone()).src(), op, RV::List(lba.clone()).src()), kind: "list-list", expected: mk_expected(oi, &lab, &lba) });
+                    cases.push(Case { src: format!("{} {} {}", RV::List(lab.clone()).src(), op, b.src()), kind: "list-scalar", expected: mk_expected(oi, &lab, &[b.clone(), b.clone()]) });
+                    cases.push(Case { src: format!("{} {} {}", a.src(), op, RV::List(lab.clone()).src()), kind: "scalar-list", expected: mk_expected(oi, &[a.clone(), a.clone()], &lab) });
+                }
+            }
+        }
+    }
     // ---- (iii) dot operators never broadcast
     for op in DOT_OPS {
         for a in short_lists.iter().filter(|l| l.len() <= 2) {
